@@ -406,7 +406,7 @@ pub fn run(args: &[String]) -> i32 {
     let pool_size = arg(args, "--pool").map(|p| contents.load_pool(p)).unwrap_or(0);
 
     let mut props: BTreeMap<&str, Tally> = BTreeMap::new();
-    for p in ["C01", "C02", "C03", "C09"] {
+    for p in ["C01", "C02", "C03", "C09", "C14"] {
         props.insert(p, Tally::default());
     }
     let mut traces_out = traces_path.map(|p| std::io::BufWriter::new(std::fs::File::create(p).expect("traces")));
@@ -569,6 +569,26 @@ pub fn run(args: &[String]) -> i32 {
                     if t.samples.len() < 3 {
                         t.samples.push(json!({"case": c.raw, "err": out.err, "text": full}));
                     }
+                }
+            }
+
+            // ---------------- C14: the option letter decides, in every message position --------
+            if c.muts.len() == 1 && c.muts[0]["k"] == "letter" {
+                let t = props.get_mut("C14").unwrap();
+                t.evaluated += 1;
+                let p = c.muts[0]["p"].as_u64().unwrap_or(1) as usize;
+                if out.accepted && out.panic.is_none() {
+                    let want = fields.get(p - 1).map(|f| f.0.clone()).unwrap_or_default();
+                    let got = out_tokens.get(p - 1).map(|t| t.tag.clone()).unwrap_or_default();
+                    if got != want {
+                        let sig = format!("C14|MT{}|{}-parsed-as-{}", c.mt, want, if out_tokens.len() == fields.len() { got } else { "dropped-or-moved".to_string() });
+                        t.violations.push(json!({"sig": sig, "replay": replay}));
+                    } else if c.verdict == "reject" {
+                        *t.notes.entry(format!("letter-outside-reference-layout-accepted-and-preserved:MT{}:{}", c.mt, want)).or_insert(0) += 1;
+                    }
+                }
+                if t.samples.len() < 3 {
+                    t.samples.push(json!({"case": c.raw, "accepted": out.accepted, "text": full}));
                 }
             }
 
